@@ -98,19 +98,41 @@ func (s *Session) tmux(args ...string) (string, error) {
 	return string(out), err
 }
 
+var portCounter int64
+
+// freePort picks a port from a range private to this process (parallel workers and
+// their fzf servers would otherwise race for the kernel's ephemeral ports).
 func freePort() int {
-	l, err := net.Listen("tcp", "127.0.0.1:0")
-	if err != nil {
-		return 0
+	// disjoint ranges per worker process
+	w, _ := strconv.Atoi(os.Getenv("VERIF_WORKER_INDEX"))
+	base := 20000 + (w%40)*1000
+	for i := 0; i < 1000; i++ {
+		p := base + int(atomic.AddInt64(&portCounter, 1)%1000)
+		l, err := net.Listen("tcp", fmt.Sprintf("127.0.0.1:%d", p))
+		if err == nil {
+			l.Close()
+			return p
+		}
 	}
-	defer l.Close()
-	return l.Addr().(*net.TCPAddr).Port
+	return 0
 }
 
 func shq(s string) string { return "'" + strings.ReplaceAll(s, "'", `'\''`) + "'" }
 
 // Start launches fzf in a fresh tmux server and waits until it answers GET (unless NoListen).
+// A start-up that loses the race for its port is repeated with another port.
 func Start(o StartOpts) (*Session, error) {
+	for attempt := 0; ; attempt++ {
+		s, err := start1(o)
+		if err != nil && s != nil && attempt < 5 && strings.Contains(s.Stderr(), "failed to listen") {
+			s.Close()
+			continue
+		}
+		return s, err
+	}
+}
+
+func start1(o StartOpts) (*Session, error) {
 	n := atomic.AddInt64(&sessionCounter, 1)
 	dir := filepath.Join(vk.Scratch(), fmt.Sprintf("tty-%d-%d", os.Getpid(), n))
 	if err := os.MkdirAll(filepath.Join(dir, "tmp"), 0o755); err != nil {
@@ -198,6 +220,11 @@ func Start(o StartOpts) (*Session, error) {
 		deadline := time.Now().Add(30 * time.Second)
 		for {
 			if _, err := s.Get(0); err == nil {
+				// make sure it is our instance that answers: ours would have exited at once had it lost the port
+				time.Sleep(30 * time.Millisecond)
+				if _, ok := s.ExitCode(); ok {
+					return s, fmt.Errorf("fzf exited during start-up: %s", s.Stderr())
+				}
 				break
 			}
 			if _, ok := s.ExitCode(); ok {
